@@ -114,6 +114,21 @@ def main(tier, replay=None):
                        "tree": build.tree_fingerprint()},
         "known_findings_reported": known, "nondeterministic_reports": nondet,
     }
+    zero = []
+    for k in ("random", "round_robin", "pct", "targeted"):
+        if not st.get("plans_by_strategy", {}).get(k):
+            zero.append("strategy " + k)
+    for k in ("2", "3", "4", "8", "16"):
+        if not st.get("plans_by_threads", {}).get(k):
+            zero.append("%s threads" % k)
+    for k, n in st.get("ops_by_kind", {}).items():
+        if not n:
+            zero.append("op kind " + k)
+    if not st.get("context_switches"):
+        zero.append("context switches")
+    cov["probes_at_zero"] = zero
+    cov["expected_zero_on_a_correct_tree"] = {"write_shared_locations": st.get("write_shared_locations", 0), "racing_pairs_seen": st.get("racing_pairs_seen", 0),
+                                              "note": "libeav keeps no shared mutable state, so these are 0 on the unchanged tree; they become non-zero as soon as a change introduces any"}
     cov["components"].update(binfo)
     assumptions = ["sampling of schedules, not proof; the race oracle (vector-clock happens-before over instrumented accesses and modelled libc calls) does not depend on the schedule taken as long as both accesses execute",
                    "libidn2 internals are not instrumented: only libeav's use of it is observed",
